@@ -479,6 +479,13 @@ def run_check(pid, fn, argv=None):
     except MachineryError as e:
         log("MACHINERY FAILURE [%s]: %s" % (pid, e))
         rc = 2
+        if getattr(ctx, "violations", None):
+            # violations already established on the real code (and printed) stand: a later step of the machinery that
+            # chokes on what the broken code produced must not turn them into "no verdict"
+            try:
+                rc = ctx.finish("model_checking", {"exhaustive": False, "incomplete": True, "machinery_failure_after_violations": str(e)[:500]})
+            except Exception:
+                rc = 1
     except Exception:
         log("MACHINERY FAILURE [%s]:\n%s" % (pid, traceback.format_exc()))
         rc = 2
